@@ -139,8 +139,30 @@ fn c09_strcodec_0to3() {
 }
 
 // ---------------------------------------------------------------- C09 (c) one record per value type
-fn mk_store() -> ManuallyDrop<Arc<StorageEngine>> {
-    ManuallyDrop::new(Arc::new(StorageEngine::vr_new1()))
+/// `Arc<StorageEngine>` whose ArcInner lives on the harness stack.  The reader takes
+/// `&Arc<StorageEngine>` and only dereferences it; with a real `Arc::new` the engine struct is
+/// moved to the heap and CBMC no longer folds its fields (measured: one set_string 867k steps and
+/// out of memory, against 40k steps / 14 s with the engine on the stack).  Layout = std's
+/// `#[repr(C)] ArcInner { strong, weak, data }`; the Arc is never dropped.
+#[repr(C)]
+pub struct StackArc<T> {
+    strong: std::sync::atomic::AtomicUsize,
+    weak: std::sync::atomic::AtomicUsize,
+    data: T,
+}
+impl<T> StackArc<T> {
+    pub fn new(data: T) -> Self {
+        StackArc { strong: std::sync::atomic::AtomicUsize::new(1), weak: std::sync::atomic::AtomicUsize::new(1), data }
+    }
+    pub fn arc(&self) -> ManuallyDrop<Arc<T>> {
+        ManuallyDrop::new(unsafe { Arc::from_raw(&self.data as *const T) })
+    }
+}
+macro_rules! mk_store {
+    ($st:ident) => {
+        let __inner = ManuallyDrop::new(StackArc::new(StorageEngine::vr_new1()));
+        let $st = __inner.arc();
+    };
 }
 
 /// writer side of one key: exactly what write_snapshot does per key
@@ -193,11 +215,11 @@ fn no_ttl(st: &Arc<StorageEngine>, k: &[u8]) {
 rdb_harness! {
 #[kani::unwind(6)]
 fn c09_rec_string() {
-    let k: [u8; 1] = [b'k'];
+    let k: [u8; 1] = kani::any();
     let p: [u8; 2] = kani::any();
     let v = ManuallyDrop::new(Value::String(p.to_vec()));
     let out = save_record::<16>(&k, &v, None);
-    let st = mk_store();
+    mk_store!(st);
     load_record::<0>(&out.buf[..out.n], &st);
     st.vr_with(0, &k, |sv| match sv {
         Some(StoredValue { value: Value::String(b), metadata }) => {
@@ -221,7 +243,7 @@ fn c09_rec_list() {
     l.push_back(vec![e[1]]);
     let v = ManuallyDrop::new(Value::List(l));
     let out = save_record::<16>(&k, &v, None);
-    let st = mk_store();
+    mk_store!(st);
     load_record::<1>(&out.buf[..out.n], &st);
     st.vr_with(0, &k, |sv| match sv {
         Some(StoredValue { value: Value::List(l2), metadata }) => {
@@ -247,7 +269,7 @@ fn c09_rec_set() {
     s.insert(vec![e[1]]);
     let v = ManuallyDrop::new(Value::Set(s));
     let out = save_record::<16>(&k, &v, None);
-    let st = mk_store();
+    mk_store!(st);
     load_record::<2>(&out.buf[..out.n], &st);
     st.vr_with(0, &k, |sv| match sv {
         Some(StoredValue { value: Value::Set(s2), metadata }) => {
@@ -274,7 +296,7 @@ fn c09_rec_hash() {
     h.insert(vec![f[1]], vec![x[1]]);
     let v = ManuallyDrop::new(Value::Hash(h));
     let out = save_record::<16>(&k, &v, None);
-    let st = mk_store();
+    mk_store!(st);
     load_record::<4>(&out.buf[..out.n], &st);
     st.vr_with(0, &k, |sv| match sv {
         Some(StoredValue { value: Value::Hash(h2), metadata }) => {
@@ -291,3 +313,4 @@ fn c09_rec_hash() {
     kani::cover!(x[0] == x[1], "equal values");
 }
 }
+
